@@ -4,6 +4,7 @@
 package c11
 
 import (
+	"math"
 	"github.com/bbockelm/cedar/message"
 	"path/filepath"
 	"os"
@@ -410,6 +411,11 @@ func applyDev(d Dev, frame []byte) ([][]byte, bool) {
 			return nil, false
 		}
 		vals[f].i = int64(d.A)
+	case "intadd":
+		if layout[f].kind != 'I' || d.A == 0 {
+			return nil, false
+		}
+		vals[f].i += int64(d.A)
 	case "flip":
 		if layout[f].kind == 'I' || d.A >= len(vals[f].b) {
 			return nil, false
@@ -515,8 +521,12 @@ func allDevs() []Dev {
 		for fi, f := range layouts[msg] {
 			switch f.kind {
 			case 'I':
-				for _, v := range []int{-1, 1, 2, 7, 255, 257} {
+				// (the wire integer is 64 bits wide: values that only differ from an acceptable one above bit 31 included)
+				for _, v := range []int{-1, 1, 2, 7, 255, 257, 1 << 32, 9 << 32, -(5 << 32), 1 << 40, math.MaxInt64, math.MinInt64} {
 					out = append(out, Dev{Msg: msg, Field: fi, Kind: "int", A: v})
+				}
+				for _, v := range []int{1 << 32, -(1 << 32), 3 << 33, 1 << 62} {
+					out = append(out, Dev{Msg: msg, Field: fi, Kind: "intadd", A: v})
 				}
 			default:
 				for _, k := range []string{"trunc", "trunc-keep-len", "empty", "append"} {
